@@ -44,6 +44,8 @@ def cases(thorough):
             continue
         yield {"kind": "basis_from_n", "n": list(c)}
         yield {"kind": "basis_from_n_u", "n": list(c)}
+    for cc in via_map_cases(thorough):
+        yield cc
     # top / side
     lat = list(itertools.product([-1.0, 0.0, 1.0], repeat=3))
     sub = [(1.0, 0.0, 0.0), (0.0, 1.0, 0.0), (0.0, 0.0, 1.0), (1.0, 1.0, 0.0), (-1.0, 0.0, 1.0), (1.0, -1.0, 1.0), (0.0, 0.0, 0.0)]
@@ -58,6 +60,96 @@ def cases(thorough):
                                     continue
                                 yield {"kind": view, "pos": [list(p1), list(p2), [2.0, 1.0, 0.0]], "vel": [list(v1), list(v2), [0.0, 1.0, -1.0]],
                                        "mass": [masses[0], masses[1], 1.0], "window": win}
+
+
+def via_map_cases(thorough):
+    """The basis osyris.map actually uses, recovered through the public API from vector layers of constant fields."""
+    for d in ("top", "side", "z", "xzy", ["normal", [1, 2, -1]], ["normal", [0, -1, 1]]):
+        for layout in ("one-group", "vector-layers-then-other-group", "other-group-image-last"):
+            for win in (1.0, 0.6):
+                yield {"kind": "via_map", "dir": d, "layout": layout, "dx": win}
+
+
+def run_via_map(acc, idx, c):
+    import osyris
+
+    V_, A_ = osyris.Vector, osyris.Array
+    pts = np.array(list(itertools.product([0.25, 0.75], repeat=3)))
+    n = len(pts)
+
+    def group(seed):
+        g = osyris.Datagroup()
+        g["position"] = V_(pts[:, 0].copy(), pts[:, 1].copy(), pts[:, 2].copy(), unit="cm")
+        g["dx"] = A_(np.full(n, 0.5), unit="cm")
+        k = np.arange(n, dtype=float)
+        if seed == 0:
+            vel = np.stack([1.0 + k, 3.0 - 2.0 * k, 0.5 * k * k - 4.0], axis=1)
+            mass = 1.0 + (k % 3)
+        else:
+            vel = np.stack([k[::-1] * 2.0 - 5.0, (k % 2) * 7.0 - 1.0, 2.0 - k], axis=1)
+            mass = 4.0 - (k % 4) * 0.5
+        g["velocity"] = V_(vel[:, 0].copy(), vel[:, 1].copy(), vel[:, 2].copy(), unit="cm/s")
+        g["mass"] = A_(mass.copy(), unit="g")
+        g["density"] = A_(k + 1.0, unit="g/cm**3")
+        for j, name in enumerate(("ex", "ey", "ez")):
+            comp = [np.ones(n) if a == j else np.zeros(n) for a in range(3)]
+            g[name] = V_(*comp, unit="dimensionless")
+        return g, vel, mass
+
+    g0, vel0, mass0 = group(0)
+    g1, _, _ = group(1)
+    layers = [g0.layer(nm, mode="vec") for nm in ("ex", "ey", "ez")]
+    if c["layout"] == "vector-layers-then-other-group":
+        layers.append(g1.layer("density"))
+    elif c["layout"] == "other-group-image-last":
+        layers = layers + [g1.layer("density", mode="image")]
+    o = np.array([0.5, 0.5, 0.5])
+    d = c["dir"]
+    direction = V_(*[float(x) for x in d[1]]) if isinstance(d, list) else d
+    try:
+        with contextlib.redirect_stdout(io.StringIO()), np.errstate(all="ignore"):
+            p = osyris.map(*layers, direction=direction, dx=c["dx"] * osyris.units("cm"), origin=V_(*o, unit="cm"), resolution=1, plot=False)
+    except Exception as e:
+        acc.violation(f"C18:map-raised:{type(e).__name__}", idx, c, {"error": repr(e)[:200]})
+        return "raises", True
+    u = np.array([float(np.ma.getdata(p.layers[j]["data"])[0, 0, 0]) for j in range(3)])
+    v = np.array([float(np.ma.getdata(p.layers[j]["data"])[0, 0, 1]) for j in range(3)])
+    if not (np.all(np.isfinite(u)) and np.all(np.isfinite(v))):
+        return "skipped-centre-pixel-masked", False
+    nvec = np.cross(u, v)
+    pr = []
+    if abs(np.linalg.norm(u) - 1) > 1e-10 or abs(np.linalg.norm(v) - 1) > 1e-10 or abs(np.dot(u, v)) > 1e-10:
+        pr.append(("map-basis-not-orthonormal", {"u": u.tolist(), "v": v.tolist()}))
+    # the cells of the FIRST layer inside the window sphere decide 'top' and 'side'
+    R = 0.25 * (c["dx"] + c["dx"])
+    r = pts - o
+    inside = np.linalg.norm(r, axis=1) < R
+    L = np.sum(mass0[inside, None] * np.cross(r[inside], vel0[inside]), axis=0)
+    if d in ("top", "side") and np.linalg.norm(L) == 0:
+        return "skipped-zero-angular-momentum", False
+    if d == "top":
+        w = unit_of(L)
+        if np.linalg.norm(np.cross(nvec, w)) > 1e-9 or np.dot(nvec, w) <= 0:
+            pr.append(("map-top-view-normal-not-along-angular-momentum-of-mapped-cells", {"n": nvec.tolist(), "L": w.tolist()}))
+    elif d == "side":
+        w = unit_of(L)
+        if abs(np.dot(nvec, w)) > 1e-9:
+            pr.append(("map-side-view-angular-momentum-not-in-image-plane", {"n": nvec.tolist(), "L": w.tolist()}))
+    elif isinstance(d, list):
+        w = unit_of(d[1])
+        if np.linalg.norm(np.cross(nvec, w)) > 1e-9 or np.dot(nvec, w) <= 0:
+            pr.append(("map-normal-not-parallel-to-request", {"n": nvec.tolist(), "requested": w.tolist()}))
+    else:
+        axes = {"x": (1, 0, 0), "y": (0, 1, 0), "z": (0, 0, 1)}
+        if len(d) == 3:
+            # a triple names u and v itself (it may be left-handed): only u and v are observable through the map
+            if np.linalg.norm(u - np.array(axes[d[1]], dtype=float)) > 1e-9 or np.linalg.norm(v - np.array(axes[d[2]], dtype=float)) > 1e-9:
+                pr.append(("map-triple-axes-not-as-requested", {"u": u.tolist(), "v": v.tolist()}))
+        elif np.linalg.norm(nvec - np.array(axes[d[0]], dtype=float)) > 1e-9:
+            pr.append(("map-axis-normal-wrong", {"n": nvec.tolist()}))
+    for sig, det in pr:
+        acc.violation(f"C18:{sig}:{c['layout']}", idx, c, det)
+    return ("ok" if not pr else "violation"), True
 
 
 def unit_of(x):
@@ -123,6 +215,8 @@ def run_case(acc, idx, c):
 
     V_, A_ = osyris.Vector, osyris.Array
     kind = c["kind"]
+    if kind == "via_map":
+        return run_via_map(acc, idx, c)
     buf = io.StringIO()
     try:
         with contextlib.redirect_stdout(buf), np.errstate(all="ignore"):
